@@ -433,21 +433,52 @@ def assocSet (l : List (Name × Obj)) (k : Name) (v : Obj) : List (Name × Obj) 
 
 def assocDel (l : List (Name × Obj)) (k : Name) : List (Name × Obj) := l.filter (fun kv => kv.1 != k)
 
+/-- are `__setattr__` / `__delattr__` of the class those that `dataclass(frozen=True)` generated?  They are as long as the decorator
+    installs no attribute-protocol hook on the class (generated fact `attrProtocolHooks`); with such a hook the model cannot tell
+    what an assignment does and takes the pessimistic reading: it reaches `object.__setattr__` / `object.__delattr__` -/
+def attrProtocolStd : Bool := attrProtocolHooks.isEmpty
+
+/-- what stands between an assignment / deletion and `object.__setattr__` / `object.__delattr__` -/
+def attrGate (name : Name) (c : Cls) : Option Exc := if attrProtocolStd then frozenWalk name true c else none
+
+/-- names that are data descriptors of `object`: assigning them does not create an instance attribute.  Every other name that is
+    not a field — a new name, the name of a method the decorator added (`copy_with`, `deep_copy_with`, `validate_types`), any other
+    special method name — is an ordinary key of the instance `__dict__` for `object.__setattr__` -/
+def nameClass : Name := 210          -- `__class__`
+def nameDict : Name := 211           -- `__dict__`
+
+/-- the class of an instance after `obj.__class__ = Other` (`Other` an ordinary class with the same layout): nothing is frozen any more -/
+def otherCls : Cls := [⟨999, false, false, false, false, false, false, []⟩]
+
+/-- attributes that live in slots survive a replacement of the instance `__dict__` -/
+def inSlots (c : Cls) (l : List (Name × Obj)) : List (Name × Obj) := l.filter (fun kv => (slotNames c).contains kv.1)
+
 def setattr (self : Inst) (name : Name) (v : Obj) : Except Exc Inst :=
-  match frozenWalk name true self.cls with
+  match attrGate name self.cls with
   | some e => .error e
   | none =>
     if (fieldNames self.cls).contains name then
       if (slotNames self.cls).contains name || hasDict self.cls then .ok { self with fields := assocSet self.fields name v }
       else .error .attributeError
-    else if hasDict self.cls then .ok { self with extra := assocSet self.extra name v }
-    else .error .attributeError
+    else if !hasDict self.cls then .error .attributeError
+    else if name == nameClass then
+      -- `object.__setattr__(self, '__class__', Other)` succeeds for a class with the same layout: the object is an `Other` now, all its
+      -- attributes are plain entries of its `__dict__`
+      .ok { cls := otherCls, fields := [], extra := self.fields ++ self.extra }
+    else if name == nameDict then
+      -- `self.__dict__ = {}`: every attribute that does not live in a slot is gone
+      .ok { self with fields := inSlots self.cls self.fields, extra := [] }
+    else .ok { self with extra := assocSet self.extra name v }
 
 def delattr (self : Inst) (name : Name) : Except Exc Inst :=
-  match frozenWalk name true self.cls with
+  match attrGate name self.cls with
   | some e => .error e
   | none =>
-    if (self.extra.lookup name).isSome then .ok { self with extra := assocDel self.extra name }
+    if name == nameClass && !(fieldNames self.cls).contains name then .error .typeError         -- "can't delete __class__ attribute"
+    else if name == nameDict && !(fieldNames self.cls).contains name then
+      if hasDict self.cls then .ok { self with fields := inSlots self.cls self.fields, extra := [] }   -- `del self.__dict__`: a new empty one
+      else .error .attributeError
+    else if (self.extra.lookup name).isSome then .ok { self with extra := assocDel self.extra name }
     else if (self.fields.lookup name).isSome then .ok { self with fields := assocDel self.fields name }
     else .error .attributeError
 
@@ -597,5 +628,85 @@ def dfltIds : Dflt → List Nat
   | .factory t => t.allIds          -- the template's identities are reserved too (it is copied, never handed out)
 
 def clsIds (c : Cls) : List Nat := (fieldsOf c).flatMap (fun f => dfltIds f.dflt)
+
+/-! ## histories: several copies of the same objects, with in-place mutation of field objects in between
+
+A frozen instance cannot be re-bound, but the lists / dicts / sets / objects its fields refer to can be changed in place, and a shallow
+copy shares them.  A mutation is applied *by identity*: to every node with that identity in every live instance (functional reading of
+"the same object is referenced from several places").  The copy methods are applied to the receiver's **current** value; that they may
+be (their result depends on the receiver, the keyword arguments and the allocator only) is the generated fact `copyHelpersStateless` —
+without it the model does not know what a copy method returns (`StepOut.unknown`). -/
+
+/-- an in-place change of a list / dict / set / object, on its item list (dict items are flattened) -/
+inductive Mut where
+  | push (xs : List Obj)            -- `l.append(x)` / `s.add(x)` / `o.a_n = x` (one item), `d[k] = v` for a new key (two items)
+  | setAt (i : Nat) (v : Obj)       -- `l[i] = v` / `d[key_i] = v` (odd flattened index) / `o.a_i = v`
+  | clear                           -- `.clear()`
+deriving Repr
+
+def Mut.apply : Mut → List Obj → List Obj
+  | .push xs, items => items ++ xs
+  | .setAt i v, items => items.set i v
+  | .clear, _ => []
+
+/-- the objects a mutation brings into the node -/
+def Mut.vals : Mut → List Obj
+  | .push xs => xs
+  | .setAt _ v => [v]
+  | .clear => []
+
+mutual
+/-- the value after the mutable node with identity `target` (wherever it occurs in it) was changed in place -/
+def Obj.mutate (target : Nat) (m : Mut) : Obj → Obj
+  | .atom a => .atom a
+  | .tup i items => .tup i (mutateL target m items)
+  | .box k i items =>
+      if i == target && k.mutable then .box k i (m.apply (mutateL target m items)) else .box k i (mutateL target m items)
+def mutateL (target : Nat) (m : Mut) : List Obj → List Obj
+  | [] => []
+  | x :: xs => x.mutate target m :: mutateL target m xs
+end
+
+def mutFields (target : Nat) (m : Mut) (l : List (Name × Obj)) : List (Name × Obj) := l.map (fun kv => (kv.1, kv.2.mutate target m))
+
+def Inst.mutate (target : Nat) (m : Mut) (i : Inst) : Inst :=
+  { i with fields := mutFields target m i.fields, extra := mutFields target m i.extra }
+
+/-- the live instances (the original first, every copy appended) and the allocator -/
+structure Hist where
+  insts : List Inst
+  next : Nat
+deriving Repr
+
+inductive Step where
+  | copy (deep : Bool) (kw : List (Name × Obj)) (on : Nat)     -- `insts[on].copy_with(**kw)` / `.deep_copy_with(**kw)`
+  | change (target : Nat) (m : Mut)                             -- in-place change of the object with identity `target`
+deriving Repr
+
+inductive StepOut where
+  | copied (recv : Inst) (out : CopyOut)
+  | raised (e : Exc)
+  | noInst
+  | mutated
+  | unknown                          -- a copy helper keeps state between calls: the model makes no prediction
+deriving Repr
+
+def stepH (h : Hist) : Step → Hist × StepOut
+  | .copy deep kw on =>
+    match h.insts[on]? with
+    | none => (h, .noInst)
+    | some self =>
+      if !copyHelpersStateless then (h, .unknown) else
+      match (if deep then deepCopyWith self kw h.next else copyWith self kw h.next) with
+      | .error e => (h, .raised e)
+      | .ok out => (⟨h.insts ++ [out.result], out.next⟩, .copied self out)
+  | .change target m => (⟨h.insts.map (Inst.mutate target m), h.next⟩, .mutated)
+
+/-- the trace of a history: for every step the state it ran in and what it did -/
+def runH : Hist → List Step → List (Hist × Step × StepOut)
+  | _, [] => []
+  | h, s :: rest => (h, s, (stepH h s).2) :: runH (stepH h s).1 rest
+
+def Hist.mutIds (h : Hist) : List Nat := h.insts.flatMap Inst.mutIds
 
 end PedVerif.Frozen
